@@ -56,7 +56,7 @@ def gen(tier, rng):
             for a, b in ((None, None), (0, L), (1, None), (None, -1)):
                 add(lens, 1, 0, [["s", a, b, st]], "steps")
     # N-d cubes: common axis anywhere, int / slice / omitted items on the other axes
-    nds = (2,) if tier == "quick" else (2, 3)
+    nds = (2, 2, 3, 3, 4)
     n_nd = 6000 if tier == "quick" else 120000
     other_items = [0, 1, -1, 2, ["s", None, None, None], ["s", 1, None, None], ["s", 0, 2, None], ["s", -2, None, None]]
     for _ in range(n_nd):
@@ -65,7 +65,7 @@ def gen(tier, rng):
         nd = rng.choice(nds)
         ca = rng.randrange(nd)
         ints, sls = _ca_items(L, False)
-        ca_it = rng.choice(ints) if rng.random() < 0.3 else rng.choice(sls)
+        ca_it = rng.choice(ints) if rng.random() < 0.3 else (rng.choice(sls) if rng.random() < 0.85 else ["s", None, None, None])
         items = [rng.choice(other_items) for _ in range(nd)]
         items[ca] = ca_it
         # sometimes omit trailing items (only allowed when they are after the common axis)
@@ -93,7 +93,8 @@ def run(case):
     nd, ca = case["nd"], case["ca"]
     seq, cubes = _build(case)
     items = Q.dec_items(case["items"])
-    item = items[0] if case["bare"] and len(items) == 1 else items
+    items_impl = Q.np_ints(case["key"], items)           # what the implementation is given (numpy integers in every fourth case)
+    item = items_impl[0] if case["bare"] and len(items) == 1 else items_impl
     full = np.concatenate([c.data for c in cubes], axis=ca)
     coords = np.concatenate([c.axis_world_coords_values(ca)[0].value for c in cubes])
     padded = list(items) + [slice(None)] * (nd - len(items))
